@@ -45,7 +45,7 @@ def context(obs):
     return f"{first['kind']}-{'during' if during else 'after'}-{last}"
 
 
-def make_sweep(P, oracle, *, plans, kinds=KINDS, decisions=DECISIONS, two=False, faults=False, re_kwargs=None, extra=None, goals_fn=None, ctx=False, updates=0, signal="sig", suspend_kw=None, run_kw=None):
+def make_sweep(P, oracle, *, plans, kinds=KINDS, decisions=DECISIONS, two=False, faults=False, re_kwargs=None, extra=None, goals_fn=None, ctx=False, updates=0, signal="sig", suspend_kw=None, run_kw=None, kinds2=None):
     """Returns the harness function.  oracle(obs, case) -> list of tags."""
     Ts = [plan_T(p, re_kwargs=re_kwargs) for p in plans]
 
@@ -64,10 +64,11 @@ def make_sweep(P, oracle, *, plans, kinds=KINDS, decisions=DECISIONS, two=False,
         if two:
             # second request: within `window` steps after the first (covers "while pausing/suspending/paused-then-resumed")
             kk = fork_int(k2, 0, P.get("window", 8))
-            r2i = fork_int(r2, 0, len(kinds))
-            if r2i < len(kinds):
-                reqs.append(dict(step=k + kk, kind=kinds[r2i]))
-                case["k2"], case["r2"] = k + kk, kinds[r2i]
+            K2 = kinds2 or kinds
+            r2i = fork_int(r2, 0, len(K2))
+            if r2i < len(K2):
+                reqs.append(dict(step=k + kk, kind=K2[r2i]))
+                case["k2"], case["r2"] = k + kk, K2[r2i]
         fail_call = fail_status = None
         if faults:
             f = fork_int(fk, 0, 3 if faults == "attr" else 2)  # 0 none, 1 call raises, 2 status fails, 3 call raises an AttributeError subclass
